@@ -140,10 +140,14 @@ def c08_jobs(tier):
 
 
 C08_LABELS = {"target_never_called_by_constructor", "rejected_only_if_invalid", "accepted_only_if_valid", "normalised_shapes",
-              "normalised_order", "x0_strictly_inside", "hard_bounds_kept"}
+              "normalised_order", "x0_strictly_inside", "hard_bounds_kept",
+              # integer spelling of the bound vectors: the transformer built from them is the one of the float spelling (H-VT)
+              "plausible_bounds_map_to_unit", "internal_box_contains_unit_box", "log_iff_positive_decade"}
 
 PROPS["C08"] = dict(
-    jobs=c08_jobs, labels=C08_LABELS, exc_is_violation=True,
+    jobs=lambda tier: c08_jobs(tier) + [j for j in vt_jobs("quick") if j["params"].get("dtype") == "int" or
+                                        j["params"].get("kinds") in (["inf", "fin"], [["conc", 1e-3, 1e-2, 1.0, 10.0], ["conc", -float("inf"), -2.0, 3.0, float("inf")]])],
+    labels=C08_LABELS, exc_is_violation=True,
     required=["rejected_only_if_invalid", "accepted_only_if_valid", "normalised_order", "x0_strictly_inside",
               "target_never_called_by_constructor"],
     bounds=dict(quick="D=1: ~50 kind patterns over {finite-symbolic, -inf, +inf, NaN, absent} per vector; D=2: all-finite and "
@@ -248,6 +252,9 @@ def vt_jobs(tier):
             J("h_vt:HVT", D=2, nonlinear=True, kinds=[["conc", 1e-3, 1e-2, 1.0, 10.0], ["conc", -float("inf"), -2.0, 3.0, float("inf")]]),
             J("h_vt:HVT", D=2, nonlinear=True, kinds=[["conc", 1e-3, 1e-2, 1.0, float("inf")], ["conc", -5.0, -2.0, 3.0, 4.0]], points=False)]
     conc = [[1e-3, 1e-2, 1.0, 10.0], [1e-12, 1e-12, 1e-11, 1e12], [1.0, 1.0, 10.0, 10.0], [0.5, 1.0, 9.99, 20.0], [1e3, 1e4, 1e12, 1e12]]
+    # integer-typed spellings of the same vectors define the same problem (log and affine coordinates)
+    jobs.append(J("h_vt:HVT", D=1, nonlinear=True, kinds=[["conc", 1, 2, 50, 100]], dtype="int", points=False))
+    jobs.append(J("h_vt:HVT", D=2, nonlinear=True, kinds=[["conc", 1, 2, 50, 100], ["conc", -5, -2, 3, 4]], dtype="int", points=False))
     for c in conc:
         # point obligations only for moderate scales: with |bound| ~ 1e12 the float-evaluated anchors of log/exp are
         # too coarse for the 1e-9 * width tolerance to be decided on the over-approximation
@@ -317,6 +324,8 @@ def tail_jobs(tier, fault=False):
                     if level == 0 and nfs not in (0, 2):
                         continue
                     jobs.append(J("h_tail:HTAIL", D=D, level=level, it=it, nfs=nfs, fault=fault, bounded=(D == 1)))
+                    if nfs == 2 and it == 2:
+                        jobs.append(J("h_tail:HTAIL", D=D, level=level, it=it, nfs=nfs, fault=fault, bounded=(D == 1), budget_hit=True))
                     if level == 1 and nfs in (1, 2) and it in (0, 2):
                         # noise auto-detected by the start-up test: the logger was constructed for a deterministic target
                         jobs.append(J("h_tail:HTAIL", D=D, level=1, level0=0, it=it, nfs=nfs, fault=fault, bounded=(D == 1)))
@@ -727,9 +736,10 @@ def c09_jobs(tier):
 
 C09_LABELS = {"returned_value_is_scalar", "target_values_support_item_as_callers_require", "refit_and_calibration_flags_are_booleans", "refit_resets_statistics",
               "linalg_failures_do_not_abort", "empty_search_set_only_without_survivors", "valid_definition_not_rejected_by_init",
-              "training_restarts_at_least_final_value", "training_restarts_at_most_initial_value", "training_options_complete", "initial_design_size_recorded"}
+              "training_restarts_at_least_final_value", "training_restarts_at_most_initial_value", "training_options_complete", "initial_design_size_recorded",
+              "valid_value_accepted", "merge_into_own_record"}
 PROPS["C09"] = dict(
-    jobs=c09_jobs, labels=C09_LABELS, required=sorted(C09_LABELS - {"valid_definition_not_rejected_by_init"}), exc_is_violation=True,
+    jobs=c09_jobs, labels=C09_LABELS, required=sorted(C09_LABELS - {"valid_definition_not_rejected_by_init", "valid_value_accepted"}), exc_is_violation=True,
     bounds=dict(quick="unit level: every harness of this framework is run in the modes of the statement (noise level 0/1/2, constraints on/off, affine/log) with the obligation 'no exception outside the declared set on any feasible path'; rare internal histories: empty search set, every ES candidate infeasible, merged observation under specified noise, non-finite GP prediction, 0..3 saved GP statistics, LinAlgError schedules, early stop of a noisy run",
                 thorough="thorough tiers of the component harnesses"),
     outside=["'optimize() returns' for whole runs (unit level only)", "exceptions raised inside gpyreg / SciPy"],
